@@ -156,6 +156,13 @@ def check_db(h, rec):
             elif got is not want:
                 return 'lookup %s %r returns the definition tagged %r, the first category defining it (%r) holds %r' % (
                     kind, n, getattr(got, '_vpl_tag', got), cats, getattr(want, '_vpl_tag', None))
+    # iter_*_specs() without argument = the concatenation over the categories in order
+    for it in (db.iter_macro_specs, db.iter_environment_specs, db.iter_specials_specs):
+        whole = list(it())
+        parts = [sp for c in cats for sp in it(categories=[c])]
+        rec.monitor('lookups_checked')
+        if len(whole) != len(parts) or any(a is not b for a, b in zip(whole, parts)):
+            return '%s() does not yield the per-category sequences concatenated in categories() order' % it.__name__
     for s in PROBES:
         for pos in range(len(s) + 1):
             best = None
